@@ -18,7 +18,6 @@
 
 use std::collections::{BTreeMap, BTreeSet};
 
-use plonky2::field::extension::FieldExtension;
 use plonky2::field::polynomial::PolynomialValues;
 use plonky2::field::types::{Field, PrimeField64};
 use plonky2::gates::arithmetic_base::ArithmeticGate;
@@ -644,6 +643,209 @@ fn prop_pinned(c: &RowCase, st: &mut Stats) -> Result<(), String> {
 }
 
 // ------------------------------------------------------------------------------------------
+// Strengthenings of `pinned`: two values replaced together; first-order joint uniqueness
+// ------------------------------------------------------------------------------------------
+
+#[derive(Clone, Debug, Serialize, Deserialize)]
+pub struct PairCase {
+    pub row: RowCase,
+    /// which written wires play the role of the first replaced value (all of them for small gates)
+    pub picks: Vec<u16>,
+}
+
+fn pair_case() -> BoxedStrategy<PairCase> {
+    bx((row_case(), prop::collection::vec(any::<u16>(), 64..=64)).prop_map(|(row, picks)| PairCase { row, picks }))
+}
+
+fn all_zero(v: &[FE]) -> bool {
+    v.iter().all(|x| canon(*x) == [0, 0])
+}
+
+/// Replace one generator-written value, then look for a second generator-written value that can
+/// be adjusted so that the row satisfies all constraints again. Any hit is an explicit second
+/// satisfying completion of the same inputs, i.e. the gate's values are not pinned.
+fn prop_pair(c: &PairCase, st: &mut Stats) -> Result<(), String> {
+    let spec = &c.row.spec;
+    let gate = spec.gate();
+    let id = gate.0.id();
+    let h = build_honest(spec, &gate, &c.row)?;
+    check_honest(&gate, &h)?;
+    st.label(&param_bucket(spec));
+    let nwr = h.written.len();
+    if nwr < 2 {
+        st.label("trivial:fewer_than_2_written_wires");
+        return Ok(());
+    }
+    let consts = lift(&h.consts);
+    let mut wires = lift(&h.wires);
+    let budget = 6000usize;
+    let n_first = (budget / (2 * nwr)).clamp(1, nwr);
+    let firsts: Vec<usize> = if n_first >= nwr {
+        h.written.clone()
+    } else {
+        st.label("pair:first_wire_sampled");
+        let s: BTreeSet<usize> = c.picks.iter().take(n_first).map(|&p| h.written[frac(p, nwr)]).collect();
+        s.into_iter().collect()
+    };
+    for &w1 in &firsts {
+        let old1 = h.wires[w1].to_canonical_u64();
+        for v1 in [if old1 != 0 { 0 } else { 1 }, (old1 + 1) % P] {
+            wires[w1] = ext_from_base(f(v1));
+            let c0 = eval_ext(&gate, &consts, &wires, &h.pih);
+            let s: Vec<usize> = (0..c0.len()).filter(|&j| canon(c0[j]) != [0, 0]).collect();
+            if s.is_empty() {
+                return Err(format!("value not pinned: {} wire {}: replacing {} by {} leaves all constraints zero", id, w1, old1, v1));
+            }
+            for &w2 in &h.written {
+                if w2 == w1 {
+                    continue;
+                }
+                let old2 = ext_from_base(h.wires[w2]);
+                wires[w2] = old2 + FE::ONE;
+                let c1 = eval_ext(&gate, &consts, &wires, &h.pih);
+                st.evals(1);
+                wires[w2] = old2;
+                // constraints that are violated must all be repairable by the same shift t of w2
+                let j0 = s[0];
+                let slope0 = c1[j0] - c0[j0];
+                if canon(slope0) == [0, 0] {
+                    continue;
+                }
+                let t = -c0[j0] * slope0.inverse();
+                if canon(t)[1] != 0 || !s.iter().all(|&j| canon(c0[j] + t * (c1[j] - c0[j])) == [0, 0]) {
+                    continue;
+                }
+                wires[w2] = old2 + t;
+                let c2 = eval_ext(&gate, &consts, &wires, &h.pih);
+                st.evals(1);
+                st.label("pair:candidate_evaluated");
+                if all_zero(&c2) {
+                    return Err(format!(
+                        "values not pinned: {}: generator-written wires {} and {} can be replaced together ({} -> {}, {} -> {:?}) and all {} constraints stay zero on the same inputs",
+                        id,
+                        w1,
+                        w2,
+                        old1,
+                        v1,
+                        h.wires[w2].to_canonical_u64(),
+                        canon(old2 + t),
+                        c2.len()
+                    ));
+                }
+                wires[w2] = old2;
+            }
+            st.nontrivial(&(id.clone(), w1, ("pair", class_of(old1))));
+        }
+        wires[w1] = ext_from_base(h.wires[w1]);
+    }
+    Ok(())
+}
+
+/// Weights `l_k` with `p'(0) = sum_k l_k p(k)` for every polynomial p of degree <= d (nodes 0..=d).
+fn derivative_weights(d: usize) -> Vec<F> {
+    let node = |k: usize| F::from_canonical_usize(k);
+    let mut w = vec![F::ZERO; d + 1];
+    for k in 1..=d {
+        let mut num = F::ONE;
+        let mut den = F::ONE;
+        for m in 0..=d {
+            if m == k {
+                continue;
+            }
+            den *= node(k) - node(m);
+            if m != 0 {
+                num *= -node(m);
+            }
+        }
+        w[k] = num * den.inverse();
+        w[0] -= node(k).inverse();
+    }
+    w
+}
+
+/// Rank of a matrix over F (rows x cols), by elimination.
+fn rank(mut m: Vec<Vec<F>>, cols: usize) -> (usize, Vec<usize>) {
+    let rows = m.len();
+    let mut r = 0;
+    let mut free_cols = vec![];
+    for col in 0..cols {
+        let Some(p) = (r..rows).find(|&i| m[i][col].to_canonical_u64() != 0) else {
+            free_cols.push(col);
+            continue;
+        };
+        m.swap(r, p);
+        let inv = m[r][col].inverse();
+        for i in r + 1..rows {
+            let factor = m[i][col] * inv;
+            if factor.to_canonical_u64() != 0 {
+                for k in col..cols {
+                    let t = m[r][k];
+                    m[i][k] -= factor * t;
+                }
+            }
+        }
+        r += 1;
+        if r == rows {
+            free_cols.extend(col + 1..cols);
+            break;
+        }
+    }
+    (r, free_cols)
+}
+
+/// First-order joint uniqueness: the Jacobian of the constraints with respect to the
+/// generator-written wires, at the honest row, must have full column rank; otherwise there is a
+/// direction in which the written values can move together while every constraint stays zero
+/// to first order (a constraint that should tie them to the inputs is missing).
+fn prop_joint(c: &RowCase, st: &mut Stats) -> Result<(), String> {
+    let gate = c.spec.gate();
+    let id = gate.0.id();
+    let h = build_honest(&c.spec, &gate, c)?;
+    check_honest(&gate, &h)?;
+    st.label(&param_bucket(&c.spec));
+    let nwr = h.written.len();
+    if nwr == 0 {
+        st.label("trivial:no_written_wire");
+        return Ok(());
+    }
+    let ncons = gate.0.num_constraints();
+    let d = gate.0.degree().max(1);
+    let lw = derivative_weights(d);
+    let consts = lift(&h.consts);
+    let mut wires = lift(&h.wires);
+    // jac[j][k] = d constraint_j / d written_k
+    let mut jac = vec![vec![F::ZERO; nwr]; ncons];
+    for (k, &col) in h.written.iter().enumerate() {
+        let old = ext_from_base(h.wires[col]);
+        for (step, &weight) in lw.iter().enumerate().skip(1) {
+            wires[col] = old + ext_from_base(F::from_canonical_usize(step));
+            let out = eval_ext(&gate, &consts, &wires, &h.pih);
+            st.evals(1);
+            for j in 0..ncons {
+                let v = ext_to_arr(out[j]);
+                if v[1].to_canonical_u64() != 0 {
+                    return Err(format!("{}: constraint {} leaves the base field on base-field wires", id, j));
+                }
+                jac[j][k] += weight * v[0];
+            }
+        }
+        // the node 0 term is the honest row, where every constraint is zero
+        wires[col] = old;
+    }
+    let (r, free) = rank(jac, nwr);
+    if r < nwr {
+        let cols: Vec<usize> = free.iter().map(|&k| h.written[k]).collect();
+        return Err(format!(
+            "values not jointly pinned: {}: the constraints' Jacobian w.r.t. the {} generator-written wires has rank {} at the honest row; \
+             dependent wire(s) {:?} can move (with others) while all {} constraints stay zero to first order",
+            id, nwr, r, cols, ncons
+        ));
+    }
+    st.nontrivial(&(id, usize::MAX - 4, input_classes(&h)));
+    Ok(())
+}
+
+// ------------------------------------------------------------------------------------------
 // Evaluators: extension field vs base batch (packed + remainder) vs base one
 // ------------------------------------------------------------------------------------------
 
@@ -958,21 +1160,41 @@ fn fixed_row(spec: &Spec) -> RowCase {
     }
 }
 
-fn sweep(ctx: &mut Ctx) {
-    let mut table: BTreeMap<&'static str, (u64, u64, u64, usize, usize)> = BTreeMap::new();
+enum SweepErr {
+    Row(&'static str, RowCase, String),
+    Pair(PairCase, String),
+}
+
+fn sweep_one(spec: &Spec) -> Result<(usize, usize, Stats), SweepErr> {
+    use crate::engine::catch;
+    let c = fixed_row(spec);
+    let gate = spec.gate();
     let mut st = Stats::new();
-    for spec in all_specs() {
-        let c = fixed_row(&spec);
-        let gate = spec.gate();
-        st.eval();
-        let r = crate::engine::catch(|| {
-            let h = build_honest(&spec, &gate, &c)?;
-            check_honest(&gate, &h)?;
-            check_pinned(&c, &gate, &h, &mut st)
-        })
-        .unwrap_or_else(|p| Err(format!("panic: {}", p)));
+    st.eval();
+    let flat = |r: Result<Result<(usize, usize), String>, String>| r.unwrap_or_else(|p| Err(format!("panic: {}", p)));
+    let (w, p) = flat(catch(|| {
+        let h = build_honest(spec, &gate, &c)?;
+        check_honest(&gate, &h)?;
+        check_pinned(&c, &gate, &h, &mut st)
+    }))
+    .map_err(|e| SweepErr::Row("pinned", c.clone(), e))?;
+    flat(catch(|| prop_joint(&c, &mut st).map(|_| (0, 0)))).map_err(|e| SweepErr::Row("jointly_pinned", c.clone(), e))?;
+    let pc = PairCase { row: c.clone(), picks: (0..64u32).map(|i| (i * 1021 % 65536) as u16).collect() };
+    flat(catch(|| prop_pair(&pc, &mut st).map(|_| (0, 0)))).map_err(|e| SweepErr::Pair(pc.clone(), e))?;
+    Ok((w, p, st))
+}
+
+fn sweep(ctx: &mut Ctx) {
+    use rayon::prelude::*;
+    let specs = all_specs();
+    let results: Vec<_> = specs.par_iter().map(sweep_one).collect();
+    let mut table: BTreeMap<&'static str, (u64, u64, u64, usize, usize)> = BTreeMap::new();
+    for (spec, r) in specs.iter().zip(results) {
         match r {
-            Ok((w, p)) => {
+            Ok((w, p, mut st)) => {
+                st.nontrivial.clear(); // the generated sub-checks count distinct cases themselves
+                st.hist.clear();
+                ctx.stats.merge(st);
                 let e = table.entry(spec.kind()).or_insert((0, 0, 0, usize::MAX, 0));
                 e.0 += 1;
                 e.1 += w as u64;
@@ -980,14 +1202,17 @@ fn sweep(ctx: &mut Ctx) {
                 e.3 = e.3.min(w);
                 e.4 = e.4.max(w);
             }
-            Err(reason) => {
-                ctx.violation("pinned", &c, &reason);
+            Err(SweepErr::Row(sub, c, reason)) => {
+                ctx.violation(sub, &c, &reason);
+                return;
+            }
+            Err(SweepErr::Pair(c, reason)) => {
+                ctx.violation("pair_pinned", &c, &reason);
                 return;
             }
         }
     }
-    st.label_n("sweep:parameterisations", table.values().map(|e| e.0).sum());
-    ctx.stats.merge(st);
+    ctx.stats.label_n("sweep:parameterisations", table.values().map(|e| e.0).sum());
     let rows: Vec<_> = table
         .iter()
         .map(|(k, e)| json!({"gate": k, "parameterisations": e.0, "written_wires_total": e.1, "pinned_wires_total": e.2, "written_min": e.3, "written_max": e.4}))
@@ -1015,14 +1240,24 @@ pub fn run(ctx: &mut Ctx) {
     ctx.assumptions.push("the inverse FFT used to read off constraint degrees is the library's (judged by C15); forward evaluation of the witness polynomials is Horner in this file".into());
     ctx.shrink_iters = 200;
 
-    let run_sweep = ctx.replay.is_none() && ctx.only_sub.as_deref().map_or(true, |s| s == "pinned");
-    if run_sweep {
-        sweep(ctx);
+    // self-test of the numerical-derivative weights on p(t) = t^3 + 2t + 5 (p'(0) = 2)
+    {
+        let p = |t: u64| F::from_canonical_u64(t * t * t + 2 * t + 5);
+        let got: F = derivative_weights(3).iter().enumerate().map(|(k, &w)| w * p(k as u64)).sum();
+        assert_eq!(got.to_canonical_u64(), 2, "harness bug: derivative weights");
     }
-    let (n_honest, n_pinned, n_base, n_circ, circ_rows, n_deg) =
-        ctx.tier.pick((6000, 3000, 2500, 320, 4, 1200), (150_000, 60_000, 60_000, 6000, 8, 24_000));
+    let run_sweep = ctx.replay.is_none() && ctx.only_sub.as_deref().map_or(true, |s| s == "sweep");
+    if run_sweep {
+        let t0 = std::time::Instant::now();
+        sweep(ctx);
+        eprintln!("[C07 {}] sweep over every parameter value: {:.1}s", ctx.variant, t0.elapsed().as_secs_f64());
+    }
+    let (n_honest, n_pinned, n_pair, n_joint, n_base, n_circ, circ_rows, n_deg) =
+        ctx.tier.pick((6000, 3000, 600, 600, 2500, 320, 4, 1200), (150_000, 60_000, 12_000, 12_000, 60_000, 6000, 8, 24_000));
     ctx.run_sub("honest_row", n_honest, 16, row_case, prop_honest);
     ctx.run_sub("pinned", n_pinned, 16, row_case, prop_pinned);
+    ctx.run_sub("pair_pinned", n_pair, 16, pair_case, prop_pair);
+    ctx.run_sub("jointly_pinned", n_joint, 16, row_case, prop_joint);
     ctx.run_sub("evaluators_base", n_base, 16, base_case, prop_base);
     ctx.run_sub("evaluators_circuit", n_circ, 16, move || circuit_case(circ_rows), prop_circuit);
     ctx.run_sub("degree", n_deg, 16, deg_case, prop_degree);
